@@ -797,6 +797,16 @@ pub fn run_seq(trace: &Trace, skip: &BTreeSet<usize>, opts: &SeqOpts) -> SeqOutc
     for (k, v) in shared.faults_fired.lock().unwrap().iter() {
         rep.fault(k, *v);
     }
+    {
+        let mut keys: BTreeSet<u16> = BTreeSet::new();
+        for o in ops {
+            if let Some(k) = o.op.key() {
+                keys.insert(k);
+            }
+        }
+        let keys: Vec<u16> = keys.into_iter().collect();
+        rep.keyed = crate::hooks::resolve_keyed(&shared, cfg.hasher, &keys);
+    }
     // measured non-triviality flags
     let ms = &model.stats;
     rep.flag("c01_nontrivial_lookups", ms.lookups_nontrivial_c01);
